@@ -330,6 +330,7 @@ def cross_check_unsat(pool, sample_size, rnd, timeout_s=20):
         results = list(ex.map(run, chunks))
     checked = agreed = unknown = 0
     bad = []
+    texts = dict(sample)
     for chunk, lines in zip(chunks, results):
         if any(l.startswith("(error") for l in lines) or len(lines) != len(chunk):
             raise Inconclusive("second solver reported an error or lost a query: %r" % lines[:3])
@@ -341,7 +342,40 @@ def cross_check_unsat(pool, sample_size, rnd, timeout_s=20):
                 bad.append(key)
             else:
                 unknown += 1
-    return (checked, agreed, unknown, bad)
+    # A `sat` from the old solver is only a disagreement if its witness really is a model: z3 4.8.12
+    # is known to answer sat wrongly on some terms with empty classes under loops. The witness is
+    # evaluated as a GROUND query by z3 5.1.0 and by cvc5; if neither accepts it, the old solver's
+    # answer is recorded as spurious.
+    real_bad = []
+    spurious = 0
+    for key in bad:
+        q = texts[key]
+        p = subprocess.run(["/usr/bin/z3", "-in", "-T:%d" % timeout_s],
+                           input=PRELUDE + q + "(check-sat)\n(get-value (s))\n",
+                           capture_output=True, text=True)
+        m = re.search(r'\(\(s "((?:[^"]|"")*)"\)\)', p.stdout)
+        if not m:
+            real_bad.append(key)
+            continue
+        w = decode_z3_string(m.group(1).replace('""', '"'))
+        if w is None:
+            spurious += 1
+            continue
+        g = '(assert (= s "%s"))\n' % esc(w) + q
+        r1 = pool.solve([("g", g)], timeout_ms=20000, keep_unsat=False)["g"][0]
+        try:
+            c = subprocess.run(["cvc5", "--lang", "smt2", "--strings-exp", "--tlimit=20000"],
+                               input="(set-logic ALL)\n" + PRELUDE + g + "(check-sat)\n",
+                               capture_output=True, text=True)
+            r2 = c.stdout.strip().split("\n")[-1] if c.stdout.strip() else "unknown"
+        except Exception:
+            r2 = "unknown"
+        if r1 == "unsat" and r2 != "sat":
+            spurious += 1
+        else:
+            real_bad.append(key)
+    cross_check_unsat.spurious = spurious
+    return (checked, agreed, unknown, real_bad)
 
 
 def ground_member(pool, term, text, timeout_ms=10000):
